@@ -731,10 +731,86 @@ def check_names(ctx, R="C05.names"):
     ctx.floor(R, n, 250, "functions in the expression-lifting modules")
 
 
+def check_custom_supports(ctx, R="C05.support"):
+    """custom support functions (not monotone): hypot"""
+    model = ctx.model
+    GE = "scenic.core.geometry"
+    fn = model.try_func(GE, "_hypotSupport")
+    if fn is None:
+        return
+    lo_list = None
+    rets = [r for r in lib.returns_of(fn) if isinstance(r.value, ast.Tuple) and len(r.value.elts) == 2]
+    if len(rets) != 1:
+        raise AnalysisError("shape not recognised: return of geometry._hypotSupport")
+    lowc = rets[0].value.elts[0]
+    if isinstance(lowc, ast.Call) and dotted(lowc.func) == "math.hypot" and len(lowc.args) == 1 and isinstance(lowc.args[0], ast.Starred) and isinstance(lowc.args[0].value, ast.Name):
+        lo_list = lowc.args[0].value.id
+    else:
+        raise AnalysisError("shape not recognised: lower bound of geometry._hypotSupport")
+    loops = [l for l in walk_local(fn) if isinstance(l, ast.For) and isinstance(l.target, ast.Tuple) and len(l.target.elts) == 2 and all(isinstance(e, ast.Name) for e in l.target.elts)]
+    if len(loops) != 1:
+        raise AnalysisError("shape not recognised: loop of geometry._hypotSupport")
+    lo, hi = (e.id for e in loops[0].target.elts)
+    n = 0
+    for c in walk_local(fn):
+        if not (isinstance(c, ast.Call) and isinstance(c.func, ast.Attribute) and c.func.attr == "append" and isinstance(c.func.value, ast.Name) and c.func.value.id == lo_list and len(c.args) == 1):
+            continue
+        n += 1
+        a = c.args[0]
+        if isinstance(a, ast.Constant) and a.value == 0:
+            ctx.ok(R, c, "_hypotSupport: lower contribution 0")
+            continue
+        # a positive contribution |v| >= m needs the interval to be sign-definite: low >= 0 (m = low) or high <= 0 (m = -high)
+        tests = [(unparse(t).replace(" ", ""), pol) for t, pol in lib.flatten_conditions(lib.guard_tests(c, fn))] if hasattr(lib, "flatten_conditions") else []
+        txt = unparse(a).replace(" ", "")
+        nonneg = any(pol and t_ in (f"{lo}>=0", f"{lo}>0", f"0<={lo}", f"0<{lo}") for t_, pol in tests)
+        nonpos = any(pol and t_ in (f"{hi}<=0", f"{hi}<0", f"0>={hi}", f"0>{hi}") for t_, pol in tests)
+        if (nonneg and txt == lo) or (nonpos and txt in (f"-{hi}", f"abs({hi})")) or (nonneg and txt == f"abs({lo})"):
+            ctx.ok(R, c, f"_hypotSupport: lower contribution {txt} under a sign-definite interval")
+        else:
+            ctx.finding(
+                R,
+                c,
+                "_hypotSupport lower bound without sign test",
+                f"geometry._hypotSupport contributes `{unparse(a)}` to the lower bound of hypot without having established `{lo} >= 0` (then {lo}) or `{hi} <= 0` (then -{hi}): "
+                f"for an argument whose interval straddles 0, e.g. Range(-3, 4), |x| can be 0, so the reported support of hypot(x, ...) excludes attainable values",
+            )
+    ctx.floor(R, n, 3, "contributions to the lower bound of hypot")
+
+
+def check_conditioned(ctx, R="C05.conditioned"):
+    ctx.rule(
+        R,
+        "Samplable.sample draws the dependencies of the object whose sampleGiven it then calls (the conditioned version, `self._conditioned`): "
+        "after `conditionTo` (pruning, `require x == y` shortcuts) the two differ, and sampling the dependencies of the unconditioned object leaves the "
+        "dependencies of the conditioned one unsampled (DefaultIdentityDict then hands back the Distribution object itself as its 'value')",
+    )
+    model = ctx.model
+    fn = model.func(DI, "Samplable.sample")
+    givens = [c for c in walk_local(fn) if isinstance(c, ast.Call) and isinstance(c.func, ast.Attribute) and c.func.attr == "sampleGiven"]
+    loops = [l for l in walk_local(fn) if isinstance(l, ast.For) and isinstance(l.iter, ast.Attribute) and l.iter.attr in ("_dependencies", "_conditionedDependencies")]
+    if len(givens) != 1 or len(loops) != 1:
+        raise AnalysisError("shape not recognised: Samplable.sample (one dependency loop, one sampleGiven call expected)")
+    recv_given = lib.role_text(fn, givens[0].func.value)
+    recv_deps = lib.role_text(fn, loops[0].iter.value)
+    if recv_given == recv_deps:
+        ctx.ok(R, fn, f"Samplable.sample: dependencies and sampleGiven both of `{recv_given}`")
+    else:
+        ctx.finding(
+            R,
+            loops[0],
+            "Samplable.sample samples the dependencies of another object",
+            f"Samplable.sample samples the dependencies of `{recv_deps}` but calls sampleGiven on `{recv_given}`: for a value conditioned to another random value "
+            f"(conditionTo) the dependencies of the conditioned version are never sampled and reach sampleGiven as unsampled Distribution objects",
+        )
+
+
 def check(ctx):
     ctx.run(check_lifting)
     ctx.run(check_containers)
     ctx.run(check_evaluate_inner)
     ctx.run(check_shortcuts)
     ctx.run(check_support)
+    ctx.run(check_custom_supports)
+    ctx.run(check_conditioned)
     ctx.run(check_names)
